@@ -27,7 +27,7 @@ ASSUMPTIONS = [
 FAULTS = ['missing', 'empty', 'ten-bytes', 'header-only', 'half', 'one-byte-short']
 REQUIRED = {t: ['path:inline', 'path:serial', 'path:pool', 'path:cache-hit', 'workers:1', 'workers:16', 'list:rectangular', 'list:below-threshold',
                 'history:different-lists-one-process', 'fault:planted', 'fault:save-raises', 'fault:crash-during-save', 'fault:crash-during-assembly', 'object:matrix',
-                'object:load-vector', 'keys:same-text-other-curve', 'keys:deep-siblings', 'call:test-list-only', 'trace:checked', 'source:driver', 'mesh:non-dyadic-time-grid', 'history:children-after-parents'] + ['fault-class:' + f for f in FAULTS]
+                'object:load-vector', 'keys:same-text-other-curve', 'keys:deep-siblings', 'call:test-list-only', 'trace:checked', 'source:driver', 'mesh:non-dyadic-time-grid', 'history:children-after-parents', 'list:early-tests-all-trials', 'keys:two-problems-one-cache-dir'] + ['fault-class:' + f for f in FAULTS]
             for t in ('quick', 'thorough')}
 TIMEOUT = {'quick': 1500, 'thorough': 7200}
 CURVES = ['UnitSquare', 'PiSquare', 'LShape', 'Circle', 'UnitInterval']
@@ -130,6 +130,15 @@ def run_sched(spec, acc):
             lists = [('square', order, order),
                      ('rectangular', order[:max(12, len(order) // 2)], order[len(order) // 3:]),
                      ('rectangular', order[3:], order[:11])]
+            # test elements confined to early times against all trial elements in shuffled order (whole columns are acausal), and the converse
+            tcut = sorted(e.time_interval[1] for e in order)[len(order) // 2]
+            early = [e for e in order if e.time_interval[1] <= tcut]
+            late = [e for e in order if e.time_interval[0] >= tcut]
+            if early and len(early) * len(order) >= 100:
+                lists.append(('early-tests', early, order))
+                acc.seen('list:early-tests-all-trials')
+            if late and early and len(late) * len(early) >= 100:
+                lists.append(('late-tests-early-trials', late, early[::-1] ))
             small = [('below-threshold', order[:7], order[5:17]), ('below-threshold', order[:9], order[:9]), ('below-threshold', order[:1], order)]
             for kind, tests, trials in lists + small:
                 if not tests or not trials:
@@ -497,6 +506,16 @@ def run_m0(spec, acc):
             if sorted(t['j'] for t in tr) != list(range(len(elems))):
                 acc.violation('pool-task-not-exactly-once:m0', '%s: worker trace %r' % (curve, sorted(t['j'] for t in tr)), dict(wit0, workers=k))
         # another list in the same process, pool path (stale module globals hazard)
+        # first a list of the same length (reversed), then a shorter one
+        same_len = list(reversed(elems))
+        mp.cpu_count = lambda: 2
+        try:
+            got_same = M0.linform_vector(same_len, use_mp=True)
+        finally:
+            mp.cpu_count = real_cpu
+        acc.case('%s|m0|pool-same-length-list' % curve, None)
+        if not same_bits(np.asarray(got_same, dtype=float), np.array([M0.linform(e)[0] for e in same_len])):
+            acc.violation('path-differs:m0-history', '%s: pool call with the reversed element list (same length as the call before) differs from per-element linform' % curve, wit0)
         other = list(reversed(elems))[:max(2, len(elems) - 3)]
         mp.cpu_count = lambda: 2
         try:
@@ -522,6 +541,23 @@ def run_m0(spec, acc):
             if not same_bits(got, np.array([M0.linform(e)[0] for e in order])):
                 acc.violation('cache-shared-between-lists:m0', '%s: load vector for the %s element list against a warm cache is not the per-element load' % (curve, oname),
                               dict(wit0, order=oname))
+        # two problems (different u0, different `problem` name) on the same curve and element list sharing the cache directory,
+        # as the driver does when it is run for Smooth and then Singular: each must get its own loads
+        u0_other = (lambda xy: 1.0 + 0.5 * xy[0] - 0.25 * xy[1] * xy[1])
+        M0_o = IPmod.InitialOperator(mesh, u0_other, initial_mesh=factory)
+        ref_o = np.array([M0_o.linform(e)[0] for e in elems])
+        M0c_o = IPmod.InitialOperator(mesh, u0_other, initial_mesh=factory, cache_dir=cdir, problem='other-datum')
+        M0c_n = IPmod.InitialOperator(mesh, u0, initial_mesh=factory, cache_dir=cdir, problem='first-datum')
+        for label, op_, want_ in (('named-first', M0c_n, ref), ('other-problem-same-list', M0c_o, ref_o), ('named-first-again', M0c_n, ref), ('other-problem-again', M0c_o, ref_o)):
+            got = op_.linform_vector(elems, use_mp=False)
+            acc.case('%s|m0|two-problems|%s' % (curve, label), None)
+            acc.seen('keys:two-problems-one-cache-dir')
+            if not same_bits(got, want_):
+                acc.violation('cache-shared-between-problems:m0', '%s: load vector of call "%s" is not the per-element load of its own initial datum' % (curve, label),
+                              dict(wit0, call=label))
+        for f in os.listdir(cdir):
+            if f.startswith('M0_first-datum') or f.startswith('M0_other-datum'):
+                os.remove(os.path.join(cdir, f))
         # keep only the file of the original list for the fault part
         keep = None
         for f in sorted(os.listdir(cdir)):
